@@ -8,6 +8,8 @@ CONSTANTS
   MaxEnv = 3
   ForeignAt = "none"
   RenderFails = FALSE
+  CacheMisses = TRUE
+  VerBumps = TRUE
   FailKinds = {"fnerror1", "fnerror2", "fatal1", "fatal2", "reqloop1", "reqloop2", "reqlabel1", "reqlabel2"}
 VIEW view
 ACTION_CONSTRAINT Emit
